@@ -185,7 +185,10 @@ def passingH : Handler := fun inp impl => do
       (iFilter.contains (Int.ofNat p.1) && isServiceCheck p.2 && decide (HealthyAt implF st strict p.2.node p.2.serviceID)))
   let svcCount := (cs.filter isServiceCheck).length
   let blocked := cs.any (fun c => c.checkID == nodeMaint || (c.status == critical && (c.checkID == serf || svcMaintPfx.isPrefixOf c.checkID)))
+  -- a tag that is a routing tag only after trimming (D27) / a tag that holds the prefix without starting with it
+  let spaced := cs.any (fun c => c.tags.any (fun t => pfx.isPrefixOf (trimSpace t) && !pfx.isPrefixOf t))
   let tag := (if strict then "strict" else "one") ++ (if blocked then "-blocked" else "-noblock") ++
+    (if spaced then "-spacedtag" else "") ++
     (if !specFilter then "-filterspec" else if !specPassing then "-passingspec" else if !specWatch then "-watchspec" else "")
   return ({ model, agree := model == impl, spec := specFilter && specPassing && specWatch,
             nontrivial := decide (2 ≤ svcCount) && !mPassing.isEmpty && mPassing.length != svcCount, tag } : Verdict).toJson
